@@ -33,7 +33,7 @@ def resolve_ifs_rules(run):
         return
     eb, et = ev[0]
     rb, rt = rm[0]
-    node = deep(f, et["args"][3], 8)
+    node = deep(f, et["args"][-1], 8)      # the expression is the last argument (a symbol context precedes it)
     m = re.match(r"^Index::index\((P\d+\.nodes), (.*)\)@DirectiveIf\.0\.condition_expr$", node)
     run.check(bool(m), R, R + "|resolve|condition-of-node", f.loc(et["span"]), "the condition evaluated is the #if node's own condition, with constants only (eval_simple)",
               "resolve_ifs evaluates `%s`, expected the condition of the DirectiveIf node being visited" % node[:160])
@@ -154,7 +154,7 @@ def leftover_rules(run):
     okm = len(ec) == 1
     if okm:
         cb, ct = ec[0]
-        okm = "DirectiveIf.0.condition_expr" in deep(f, ct["args"][3], 6)
+        okm = "DirectiveIf.0.condition_expr" in deep(f, ct["args"][-1], 8)
         # Ok outcome -> explicit error (match / if let / is_ok)
         from rules_sym import result_tests
         found = False
